@@ -251,6 +251,8 @@ def run_case(case) -> core.Outcome:
                     eq = bool(back == obj)
                 except Exception:
                     pass
+                if not eq and back.unit is not obj.unit and _equal_value(c, back, obj):
+                    eq = True  # e.g. the documented kg mapping: an equal named unit, equal up to float rounding
                 if not eq and not (isinstance(obj.magnitude, float) and math.isinf(obj.magnitude) and back.magnitude == obj.magnitude and back.unit is obj.unit):
                     if cname in ("json", "json-installed", "json-nested", "pydantic", "composite") and back.unit is not obj.unit and (shape in ("symbol-less", "folded") or shape.startswith("collision:")):
                         out.fail(f"C15:quantity-unit-string:{shape}", f"{cname} of {obj!r} came back as {back!r}")
